@@ -279,6 +279,8 @@ def conclude(prop, tier, seed, meta, results, dead, wall, nshards, write_evidenc
     seen_keys = set()
     rdir = os.path.join(VERIF, "replay", prop)
     for v in unattributed:
+        if v.get("case") is None:
+            continue  # beyond the per-shard payload cap: counted, but there is nothing to replay
         key = (v["kind"], (v.get("detail") or "")[:120])
         if key in seen_keys and len(seen_keys) > 12:
             continue
